@@ -143,6 +143,40 @@ CLAIMED = {
         technique="Lean 4 proof (D1, trace cyclicity) + exact Q(i) correspondence + Fock-space spec comparison",
         note=TB + COMMON_NOTE + " jax.vjp/jvp are trusted to differentiate the traced function (cross-checked, not proved).",
     ),
+    "C13": dict(
+        category="proof",
+        text=("Lean theorems for every dimension: for any W = Q R with R invertible, overlap(W) = overlap(Q) det R (= product of the diagonal for a "
+              "triangular factor), and the Green's function - hence force bias and local energy - of W equals that of Q (restricted and unrestricted); "
+              "an orthonormal basis of the trial's occupied space has overlap det U. Tied to the code by a monitor of jnp.linalg.qr's specification on "
+              "the call-site routine, by orthonormality / span / overlap x norm / invariance of energy and force bias on complex batches for 8 trial "
+              "kinds, by the implementation's overlap(Q) x norm and energy(Q) vs the Lean model's exact values for the original W, and by "
+              "get_init_walkers for all classes (shape, count, orthonormality, overlap bounded away from zero or explicit refusal, variational energy)."),
+        design_ref="DESIGN.md §5/C13",
+        technique="Lean 4 proof (det_mul, mul_inv_rev; single-determinant models) + qr assumption monitor + Q(i) correspondence",
+        note=TB + " qr/eigh are assumed to meet their specification (monitored); the CI kinds' invariance is validated, not proved; 'bounded away from zero' is checked as relative overlap > 1e-3.",
+    ),
+    "C14": dict(
+        category="proof",
+        text=("Lean theorems: a per-walker routine commutes with every permutation of the population (also with per-walker fields/weights/overlaps), "
+              "batched evaluation equals the plain map for every batch split, hence any two splits agree; the weight sum is permutation invariant; the "
+              "restricted per-walker overlap, force bias and local energy equal the unrestricted ones on [w, w] (from C01-C03), which makes the two "
+              "storage formats bisimilar. Tied to the code by permuting / re-batching every measurement routine for 6-9 trial kinds and both propagators' "
+              "propagate and _apply_trotprop, and by rhf+restricted vs uhf+unrestricted sampler runs with the same seed."),
+        design_ref="DESIGN.md §5/C14",
+        technique="Lean 4 proof (map/permutation/chunking lemmas + C01-C03 equalities) + differential runs under permutations and batch counts",
+        note=TB + " vmap/scan/reshape are modelled as map over chunks; the trajectory-level bisimulation is validated on runs, the theorem gives the per-walker equalities it rests on.",
+    ),
+    "C15": dict(
+        category="proof",
+        text=("Lean theorems for every dimension: rotate_orbs is modelled as the congruence U^T X U (congruences compose, any matrix); for real "
+              "orthogonal U, with trial orbitals and walkers rotated by U^T, the Gram matrix C^H W, hence overlaps (factor 1), every Green's-function "
+              "contraction, force biases and local energies of the single-determinant kinds are unchanged. Tied to the code by ham.rotate_orbs on exactly "
+              "orthogonal rational Givens products and on invertible matrices (congruence clause), before/after comparison for rhf/uhf/ghf/noci with "
+              "spin-dependent h1, and the Lean model on the rotated problem vs the implementation on the unrotated one."),
+        design_ref="DESIGN.md §5/C15",
+        technique="Lean 4 proof (matrix algebra on the single-determinant models) + exact-orthogonal differential runs + Q(i) correspondence",
+        note=TB + " NOCI/GHF covariance is validated (linearity / block structure), the theorems are stated for the rhf/uhf models.",
+    ),
 }
 
 NOT_YET = {}
